@@ -176,6 +176,8 @@ CONFIGS = [
     Cfg("b64-bytes", 4, [b"\r\n", 64, 9], [b"b64", b"standard", 0, b"bytes"], sep=b"\r\n", limit=64),
     Cfg("b64-url-checksum-json", 4, [b"\n", 160, 1], [b"b64", b"urlsafe", 1, b"json"], sep=b"\n", limit=160),
     Cfg("b64-pickle", 4, [b"\r\n", 160, 5], [b"b64", b"standard", 0, b"pickle"], sep=b"\r\n", limit=160),
+    Cfg("b64-bytes-sep3", 4, [b"|-|", 64, 9], [b"b64", b"standard", 0, b"bytes"], sep=b"|-|", limit=64),
+    Cfg("b64-json-sep5", 4, [b"~~.~~", 96, 1], [b"b64", b"urlsafe", 0, b"json"], sep=b"~~.~~", limit=96),
     Cfg("pickle", 5, [], [b"pickle"]),
     Cfg("zlib-json", 6, [0, 1], [b"zlib", b"json"]),
     Cfg("zlib-pickle", 6, [0, 5], [b"zlib", b"pickle"]),
@@ -320,6 +322,12 @@ JSON_STREAMS = [(b'{}[]', 2), (b'"}"[1]', 3), (b'1\n[2]', 3), (b'[1]2\n"a"', 3),
                 (b'{"[":[]}1\n', 8), (b'"]"[["["]]', 7), (b'0\n0\n""[]', 2), (b'[{}]"\\"]"', 5)]
 
 
+# whitespace and keep-alive bytes at parser start positions: before the first document, between documents, after a
+# decode error, after a limit error (limit 3: the 5-byte document overruns)
+JSON_WS_STREAMS = [b' {}', b'\r\n[1]\r\n[2]', b'{} \n []', b'\n1\n\n2\n', b' "a" ', b'[1,]\n {}', b'\t\t', b' \n1 ',
+                   b'[1,2]\n{}', b'12345\n 1\n', b'}\n {}', b'"a\n"\n\n"b"']
+
+
 def framing_cases(tier, rng, thorough):
     """work item (1): raw JSON and generic framers against every chunking of small inputs"""
     jraw = BY_NAME["jsonraw"]
@@ -355,6 +363,19 @@ def framing_cases(tier, rng, thorough):
                 inp = s2.make_simple_case(4, [limit], [b"jsonraw"], ch)
                 d1 = dict(input=inp, tags=["framing", "jsonraw-multidoc", "all-chunkings" if (n <= 8 or thorough) else "sampled-chunkings"],
                           nontrivial=len(ch) > 1)
+                _YIELDED.append(d1)
+                yield d1
+    for stream in JSON_WS_STREAMS:
+        n = len(stream)
+        if n <= 7 or thorough:
+            chs = list(sc.all_chunkings(stream))
+        else:
+            masks = {rng.randrange(1 << (n - 1)) for _ in range(48)} | {0, (1 << (n - 1)) - 1}
+            chs = [sc.cuts_to_chunks(stream, [i + 1 for i in range(n - 1) if m >> i & 1]) for m in sorted(masks)]
+        for limit in (100, 3):
+            for ch in chs:
+                inp = s2.make_simple_case(4, [limit], [b"jsonraw"], ch)
+                d1 = dict(input=inp, tags=["framing", "jsonraw-whitespace"], nontrivial=True)
                 _YIELDED.append(d1)
                 yield d1
     streams = [b"\x02ab\x01c", b"\x03!ab\x01c", b"\x02?b\x01c", b"\x05abc", b"\x00\x00\x01a", b"\x02ab" * 3, b"\x01!\x01a", b"\x04ab",
@@ -535,11 +556,32 @@ def boundary_cases(tier, rng, thorough):
                                         nontrivial=True)
 
 
+def short_start_cases(tier, rng, thorough):
+    """separator-framed serializers whose generator starts on fewer bytes than the separator: several valid frames, reads
+    cut 1 .. seplen bytes after each separator (so the bytes re-injected for the next frame, or the first read of a
+    frame, are shorter than the separator), plus byte-by-byte delivery"""
+    for c0 in CONFIGS:
+        if c0.sep is None or c0.family not in s2.HAS_COPY:
+            continue
+        for c in (c0, c0.with_debug()):
+            for _ in range(6 if thorough else 2):
+                frames = [c.frame(rng) for _ in range(3)]
+                stream = b"".join(frames)
+                ends = [len(frames[0]), len(frames[0]) + len(frames[1])]
+                chs = [[stream[i:i + 1] for i in range(len(stream))]] if len(stream) <= 160 else []
+                for j in range(1, len(c.sep) + 1):
+                    chs.append(sc.cuts_to_chunks(stream, [e + j for e in ends]))
+                    chs.append(sc.cuts_to_chunks(stream, [ends[0], ends[0] + j, ends[1], ends[1] + j]))
+                for ch in chs:
+                    yield _case(c, frames[0], ch, c.hint(rng), ["short-start", f"seplen{len(c.sep)}"], nontrivial=True)
+
+
 def cases(tier, rng, escalate):
     thorough = tier == "thorough" or escalate
     del _YIELDED[:]
     yield from framing_cases(tier, rng, thorough)
     yield from boundary_cases(tier, rng, thorough)
+    yield from short_start_cases(tier, rng, thorough)
     yield from fuzz_cases(tier, rng, thorough)
     yield from extreme_cases(tier, rng, thorough)
     yield from f3_cases(tier, rng, thorough)
@@ -636,9 +678,13 @@ def oracle(inp):
                         before = len(consumer.get_buffer())
                     else:
                         return f"no-progress: copying consumer of {name} keeps producing events"
+                stalled = _stalled(family, cfg, fed[len(fed) - before:] if before else b"")
+                if stalled:
+                    return f"stall: copying consumer of {name}: {stalled}"
             if "buf" in modes:
                 consumer = BufferedStreamDataConsumer(BufferedStreamProtocol(s2.make_serializer(family, cfg, impl)), hint)
                 fed = b""
+                pend = 0            # bytes handed to the parser since its last event
                 for ch in chunks:
                     view = memoryview(ch)
                     held = 0
@@ -652,6 +698,7 @@ def oracle(inp):
                             mv[:n] = view[:n]
                         del wb
                         fed += bytes(view[:n])
+                        pend += n
                         view = view[n:]
                         arg = n
                         avail = None       # bytes the failing parse had at its disposal: unknown for the first event
@@ -672,17 +719,34 @@ def oracle(inp):
                                 if avail is not None and not rem < avail:
                                     return f"no-progress: buffered consumer of {name}: parse error consumed no byte ({avail} -> {rem})"
                                 avail = rem
+                                pend = rem
                             except Exception as exc:
                                 return _escape("BufferedStreamDataConsumer.next", name, exc)
                             else:
                                 avail = s2._saved_len(consumer)
+                                pend = avail
                             arg = None
                         else:
                             return f"no-progress: buffered consumer of {name} keeps producing events"
+                stalled = _stalled(family, cfg, fed[len(fed) - pend:] if pend else b"")
+                if stalled:
+                    return f"stall: buffered consumer of {name}: {stalled}"
     except s2.WatchdogTimeout:
         return f"hang: {name} did not answer within {s2.WATCHDOG_S} s"
     except _Exempt:
         return None
+    return None
+
+
+def _stalled(family, cfg, pending: bytes):
+    """the bytes handed to the parser since its last event contain a complete frame, yet no event came: the receive loop
+    would wait for ever (separator-framed and fixed-size families, where completeness is a property of the bytes)"""
+    if family in (0, 4) and cfg[0] in pending:
+        return f"{len(pending)} bytes including a separator are held without any packet or error"
+    if family == 1 and b"\n" in pending:
+        return f"{len(pending)} bytes including a newline are held without any packet or error"
+    if family == 3 and len(pending) >= cfg[0]:
+        return f"{len(pending)} bytes (frame size {cfg[0]}) are held without any packet or error"
     return None
 
 
